@@ -27,7 +27,7 @@ sys.path.insert(0, os.path.join(verif.ROOT, "translate"))
 import api_table  # noqa: E402
 
 LEVEL = "proof"
-PROPS = ["GeosModel.Props.C12"]
+PROPS = ["GeosModel.Props.C12", "GeosModel.Props.C12Ctor"]
 GENERATED = os.path.join(verif.LEAN, "GeosModel", "Generated", "Api.lean")
 
 EXCLUSIONS = [
@@ -515,6 +515,36 @@ def run(ctx):
         ctx.cov["support_correspondence"]["api-seq"]["failure_signatures"] = [dict(json.loads(k), count=v) for k, v in sorted(seen.items())][:200]
 
     lap("classify_and_shrink")
+    # ---- stream ctor-own: the constructors that take ownership of their arguments, one call per case, against Model/Api/Construct.lean
+    # (outcome, type id of the result, fate of every argument: F freed while the call ran, R part of the result, L nobody owns it, - NULL)
+    nco = 4000 if quick else 60000
+    rco = verif.run_stream(exe, "ctor-own", ctx.seed, nco, ctx.work, shards=min(verif.NPROC, 8), driver_exe="drv_c12", timeout=1200 if quick else 6000)
+    lap("ctor_own_stream")
+    ctx.cov["support_correspondence"]["ctor-own"] = {"cases": rco["cases"], "disagreements": len(rco["disagreements"]) + rco.get("more_disagreements", 0),
+                                                     "distribution": dict(rco["stats"])}
+    ctx.cov["samples"] += [{"case": s_["case"][:300], "impl": s_["impl"], "model": s_["model"]} for s_ in rco.get("samples", [])[:1]]
+    if rco["error"]:
+        ctx.violation("correspondence stream ctor-own could not run: %s" % rco["error"][:500],
+                      {"kind": "tie-broken", "correspondence": "ctor-own", "detail": rco["error"]}, nofail=True)
+    else:
+        if rco["cases"] < nco // 2 or rco["stats"].get("refused", 0) < rco["cases"] // 10 or rco["stats"].get("accepted", 0) < rco["cases"] // 10:
+            ctx.violation("the ctor-own stream is degenerate (cases=%d, refused=%s, accepted=%s)" % (rco["cases"], rco["stats"].get("refused"), rco["stats"].get("accepted")),
+                          {"kind": "tie-broken", "correspondence": "ctor-own", "stats": rco["stats"]}, nofail=True)
+        shown = set()
+        for idx, case, exp, got in sorted(rco["disagreements"], key=lambda d: len(d[1])):
+            ctor = case.split(" ")[0]
+            leak = "L" in exp.split(" ")[-1] and exp != "clean"
+            kind = "argument-leaked" if leak else ("leak-report" if case == "LSAN" else "differs-from-model")
+            sig = {"fn": "ctor-own:" + ctor, "kind": kind}
+            key = json.dumps(sig, sort_keys=True)
+            if key in shown:
+                continue
+            shown.add(key)
+            what = ("an ownership-taking constructor left an argument that nobody owns (leak) — case `%s`: GEOS %s, model %s" if leak else
+                    "an ownership-taking constructor differs from Model/Api/Construct.lean — case `%s`: GEOS %s, model %s") % (case, exp, got)
+            ctx.violation(what, {"kind": "failing-input", "stream": "ctor-own", "case": case, "impl": exp, "model": got, "signature": sig,
+                                 "replay_cmd": "%s replay-own <file with the case line>" % exe}, signature=sig)
+
     # ---- a table theorem broke: look for a concrete failing call of each named function
     if not proved:
         lf = getattr(ctx, "lean_failure", None) or {}
